@@ -62,18 +62,34 @@ let parse_daydef s =
                 tp_dr_stride = z_of_int stride }
   | None -> { tp_dr_first = parse_spec s; tp_dr_last = None; tp_dr_stride = z_of_int stride }
 
+(* the day definition and the time ranges are what the MODEL'S parser (Tp/TpParse.v) makes of the strings the code gets *)
+let tp_bytes s = List.map (fun c -> z_of_int (Char.code c)) (List.of_seq (String.to_seq s))
+let tp_hexarg a k = let v = str a k "-" in if v = "-" then "" else hex_dec v
+
 let tp_apply_range f a =
-  let k = hex_dec (str a "k" "-") in
-  let dd = parse_daydef (str a "ast" "") in
-  let trs = List.map parse_seg (split_c (str a "tr" "-") ',') in
+  let k = tp_hexarg a "k" in
+  let dd = match tp_parse_daydef (tp_bytes k) with Some d -> d | None -> failwith ("day definition rejected by the parser model: " ^ k) in
+  let trs = match tp_parse_timeranges (tp_bytes (tp_hexarg a "v")) with
+    | Some t -> t | None -> failwith ("time ranges rejected by the parser model: " ^ tp_hexarg a "v") in
   (* Dictionary = std::map: key-sorted, a repeated key replaces the value *)
   let rest = List.filter (fun (k', _, _) -> k' <> k) f.f_ranges in
   f.f_ranges <- List.sort (fun (k1, _, _) (k2, _, _) -> compare k1 k2) ((k, dd, trs) :: rest)
 
-(* n = 0 in an n-th weekday specification ("monday 0"): not a day definition -> rejected *)
-let tp_ast_nth_zero s =
-  List.exists (fun sp -> match String.split_on_char '.' sp with ["w"; _; "z"; _] -> true | _ -> false)
-    (String.split_on_char '~' (List.hd (String.split_on_char '/' s)))
+(* TimePeriod::ValidateRanges on one entry, by the parser model; v defaults to "00:00-24:00" *)
+let tp_validate a =
+  let v = if str a "v" "" = "" then "00:00-24:00" else tp_hexarg a "v" in
+  tp_validate_entry (tp_bytes (tp_hexarg a "k")) (tp_bytes v)
+
+(* the generator prints the parsed form it MEANT next to the string (ast= / tr=): the parser model has to agree *)
+let tp_printer_agrees a =
+  let ok_dd = match str a "ast" "" with
+    | "" -> true
+    | ast -> (match tp_parse_daydef (tp_bytes (tp_hexarg a "k")) with Some d -> d = parse_daydef ast | None -> false) in
+  let ok_tr = match str a "tr" "" with
+    | "" -> true
+    | tr -> (match tp_parse_timeranges (tp_bytes (tp_hexarg a "v")) with
+        | Some t -> t = List.map parse_seg (split_c tr ',') | None -> false) in
+  ok_dd && ok_tr
 
 let tp_existing names = List.filter_map (fun n -> Hashtbl.find_opt tp_tab n) names
 
@@ -81,7 +97,9 @@ let tp_upd_fun f =
   if f.f_ranges = [] then (fun _ _ -> f.f_own)
   else
     let (base, tab) = !tp_zone in
-    (fun b e -> tp_script_func (tp_tab_off base tab) (tp_tab_mk base tab)
+    (* the form of IsInTimeRange's day number and of ScriptFunc's day loop is the one the source has now
+       (Facts_c08, regenerated on every run) *)
+    (fun b e -> tp_script_func (tp_tab_off base tab) (tp_tab_mk base tab) tp_src_stride_round tp_src_lookback
         (List.map (fun (_, dd, trs) -> (dd, trs)) f.f_ranges) b e)
 
 let op_tp_upd a =
@@ -127,9 +145,23 @@ let oracle_c08_case script trace =
                    | [t; o] -> (z_of_int (int_of_string t), z_of_int (int_of_string o)) | _ -> failwith "tab")
                  (split_c (str a "tab" "-") ','));
       next li (fun l -> if l <> "tp_tz ok" then fail (Printf.sprintf "step=%d tz-table %s" li l))
+    | Some ("tp_mk", a) ->
+      (* the only thing the theorems ask of mktime (tp_good): a local time that exists exactly once is mapped to its
+         instant; inside a skipped / repeated hour nothing is claimed (compared with the model only) *)
+      let (base, tab) = !zone in
+      let ls = List.map (fun s -> z_of_int (int_of_string s)) (split_c (str a "l" "-") ',') in
+      next li (fun l ->
+        match tok_val (toks_of l) "r" with
+        | None -> fail (Printf.sprintf "step=%d unexpected-line %s" li l)
+        | Some r ->
+          let rs = List.map int_of_string (split_c r ',') in
+          if List.length rs <> List.length ls then fail (Printf.sprintf "step=%d op=tp_mk wrong-number-of-answers" li)
+          else List.iter2 (fun lz r ->
+              if tp_tab_good_b base tab lz && int_of_z (tp_tab_mk base tab lz) <> r then
+                fail (Printf.sprintf "step=%d op=tp_mk mktime-of-an-exactly-once-local-time l=%s got=%d" li (zs lz) r)) ls rs)
     | Some ("tp_parse", a) ->
       next li (fun l ->
-        let want = if tp_ast_nth_zero (str a "ast" "") then "rejected" else "ok" in
+        let want = if tp_validate a then "ok" else "rejected" in
         match tok_val (toks_of l) "res" with
         | Some r when r = want -> ()
         | Some "hang" -> fail (Printf.sprintf "step=%d op=tp_parse day-definition-never-finishes (validation hangs)" li)
@@ -137,7 +169,9 @@ let oracle_c08_case script trace =
         | None -> fail (Printf.sprintf "step=%d unexpected-line %s" li l))
     | Some ("tp_new", a) -> Hashtbl.replace fx (str a "name" "") (tp_new_fix a)
     | Some ("tp_own", a) -> (Hashtbl.find fx (str a "name" "")).f_own <- List.map parse_seg (split_c (str a "segs" "-") ',')
-    | Some ("tp_range", a) -> tp_apply_range (Hashtbl.find fx (str a "name" "")) a
+    | Some ("tp_range", a) ->
+      if not (tp_printer_agrees a) then fail (Printf.sprintf "step=%d op=tp_range parse-roundtrip: the parser model does not return the parsed form the generator printed" li)
+      else tp_apply_range (Hashtbl.find fx (str a "name" "")) a
     | Some ("tp_now", a) ->
       let f = Hashtbl.find fx (str a "name" "") in
       next li (fun l ->
@@ -170,7 +204,7 @@ let oracle_c08_case script trace =
                 let (base, tab) = !zone in
                 let rg = List.map (fun (_, dd, trs) -> (dd, trs)) f.f_ranges in
                 let noop = (not clear) && int_of_z (zi "e") < int_of_z (tp_ve_num pre) in
-                if (not noop) && not (tp_cal_hyps_ok base tab rg (tp_upd_begin (zi "b") clear pre) (zi "e")) then
+                if (not noop) && not (tp_cal_hyps_ok tp_src_stride_round tp_src_lookback base tab rg (tp_upd_begin (zi "b") clear pre) (zi "e")) then
                   Some "calendar-hypotheses-not-met (table / exists-exactly-once check failed)"
                 else
                 match tp_cal_step_ok base tab
@@ -195,8 +229,13 @@ let () =
                     | [t; o] -> (z_of_int (int_of_string t), z_of_int (int_of_string o)) | _ -> failwith "tab")
                   (split_c (str a "tab" "-") ','));
     emit "tp_tz ok");
+  register_op "tp_mk" (fun a ->
+    let (base, tab) = !tp_zone in
+    let ls = split_c (str a "l" "-") ',' in
+    emit ("tp_mk r=" ^ (if ls = [] then "-" else
+      String.concat "," (List.map (fun s -> zs (tp_tab_mk base tab (z_of_int (int_of_string s)))) ls))));
   register_op "tp_parse" (fun a ->
-    emit ("tp_parse res=" ^ (if tp_ast_nth_zero (str a "ast" "") then "rejected" else "ok")));
+    emit ("tp_parse res=" ^ (if tp_validate a then "ok" else "rejected")));
   register_op "tp_new" (fun a -> Hashtbl.replace tp_tab (str a "name" "") (tp_new_fix a));
   register_op "tp_own" (fun a -> (tp_get a).f_own <- List.map parse_seg (split_c (str a "segs" "-") ','));
   register_op "tp_range" (fun a -> tp_apply_range (tp_get a) a);
